@@ -83,6 +83,14 @@ class Basis:
             out[j] = self.lagrange(j, (a, b), tt)
         return out
 
+    def lebesgue(self):
+        """max over sample points of sum_j |p_j(x)|"""
+        worst = 1.0
+        for i in range(self.n - 1):
+            for f in (0.25, 0.5, 0.75):
+                worst = max(worst, float(np.abs(self.all_p(self.x[i] + f * (self.x[i + 1] - self.x[i]))).sum()))
+        return worst
+
     def selftest(self):
         """partition of unity and Kronecker property; raises AssertionError (harness error) if broken"""
         for k, xk in enumerate(self.x):
@@ -92,5 +100,5 @@ class Basis:
             assert np.allclose(v, e, atol=1e-12), ("kronecker", k, v)
         for i in range(self.n - 1):
             xm = 0.5 * (self.x[i] + self.x[i + 1])
-            assert abs(self.all_p(xm).sum() - 1.0) < 1e-9, ("unity", i)
+            assert abs(self.all_p(xm).sum() - 1.0) < 1e-9, ("unity", i, self.x, self.d, self.log)
         return True
